@@ -36,6 +36,8 @@ class P(b1.Plugin):
                         req["ignore"] = True
                     else:
                         req["method"] = gen.METHOD_LEAVES.index(f.ty)
+                if req["ignore"] and rng.random() < 0.2:
+                    req["method"] = gen.METHOD_LEAVES.index(f.ty)      # both: a field switched off that still names its method
                 f.req["Hash"] = req
                 f.metas = gen.render_field_cmp_attr(rng, "Hash", req, "hash_m_%s" % f.ty)
                 if with_eq:
